@@ -13,8 +13,14 @@ probabilities) or be the re-encoded original (predictions, `classes_`).
 
 Regression strategies take continuous targets, so only the sentinel varies there:
   R0 NaN (float y), R1 reserved number -1000.0 (float y), R2 None (object y).
+
+Layout: `CONFIGS` (one entry per class configuration: how to build the strategy / classifier and every model it uses from an
+`EncCtx`), `make_ds` (data sets, a function of (seed, kind, nmax) only), `evaluate` (the paired oracle on one
+(configuration, data set) pair: E0 twice as reproducibility guard, then the other encodings; one failure kind per encoding,
+collapsed over encodings into a precondition class), `paired_runs` / `search` / `replay`.
+Finding keys: C09/<Class.method>/<failure-kind>/<[config-tag-]precondition>, precondition in {numeric-sentinel, string-sentinel,
+none-sentinel, string-labels (= E2 and E3), any-non-default-encoding (= E1, E2 and E3), non-nan-sentinel (= R1 and R2)}.
 """
-import itertools
 import time
 import warnings
 
@@ -25,7 +31,11 @@ from .. import vlib
 LEAN_TARGETS = ["SkaModel.Props.C09"]
 LEVEL = "proof"
 RULE = (
-    "cases: one (class configuration, data set) pair = the same labeling (12-30 samples, 2 features, 2 or 3 classes, "
+    "cases (a) encoding algebra: random labelings (1-d / 2-d, 2-3 classes, any missing pattern, class list permuted, given or inferred) "
+    "presented under E0..E3 to the real ExtLabelEncoder / is_unlabeled / SkactivemlClassifier._validate_data (cost matrix) and, as "
+    "order-preserving integer codes, to the Lean model: model = implementation per encoding, and on the real code identical codes, masks "
+    "and permuted cost matrices across encodings, decoded predictions re-encoded; "
+    "(b) one (class configuration, data set) pair = the same labeling (12-30 samples, 2 features, 2 or 3 classes, "
     "some labeled / some unlabeled, optionally one class absent from the labels; 3 annotators for the multi-annotator "
     "classes; continuous targets for regression strategies) run on the real code under the encodings E0..E3 "
     "(R0..R2 for regression) with `classes` / `missing_label` set on the strategy and on every model it uses and the "
@@ -35,6 +45,7 @@ RULE = (
     "samples both present and >= 2 classes among the labels; distinct = distinct (configuration, data set) pairs"
 )
 ASSUMPTIONS = [
+    "labels reach the Lean model as kind tags and order-preserving integer codes computed by the harness per case (see c16.py)",
     "the Lean theorems are about the encoding algebra (ExtLabelEncoder, is_unlabeled, decode, cost-matrix permutation) only; "
     "that a strategy / classifier factors through that algebra is established per class by paired real runs, not proved",
     "strategies whose clustering is not seeded by the strategy (TypiClust, ProbCover, Clue, DropQuery) are given "
@@ -143,12 +154,12 @@ class DS:
     pass
 
 
-DS_KINDS = ["c3", "c2", "c3abs", "c3few"]
+DS_KINDS = ["c3", "c2", "c3abs", "c3few", "c3cold"]
 
 
 def make_ds(seed, kind, nmax=30):
     """12-30 samples, 2 features. kind: c3 (3 classes), c2 (2 classes), c3abs (3 classes declared, one absent
-    from the labels), c3few (3 classes, exactly one label per class)."""
+    from the labels), c3few (3 classes, exactly one label per class), c3cold (no label at all)."""
     rs = np.random.RandomState(seed % (2**31))
     d = DS()
     d.seed, d.kind, d.nmax = int(seed), kind, int(nmax)
@@ -164,6 +175,8 @@ def make_ds(seed, kind, nmax=30):
     if kind == "c3abs":
         present = sorted(rs.choice(K, size=2, replace=False).tolist())
     per = 1 if kind == "c3few" else int(rs.randint(2, 4))
+    if kind == "c3cold":
+        present = []
     for c in present:
         idx = np.flatnonzero(t == c)
         mask[rs.choice(idx, size=min(per, len(idx)), replace=False)] = True
@@ -173,7 +186,7 @@ def make_ds(seed, kind, nmax=30):
         mask |= extra
     # keep at least 4 unlabeled samples
     lab = np.flatnonzero(mask)
-    while n - mask.sum() < 4:
+    while n - mask.sum() < 4 and len(lab):
         mask[lab[-1]] = False
         lab = lab[:-1]
     yi = np.where(mask, t, -1)
@@ -191,10 +204,12 @@ def make_ds(seed, kind, nmax=30):
         flip = rs.rand(n) < 0.2
         lab_a[flip] = rs.randint(0, K, size=int(flip.sum()))
         yma[sel, a] = lab_a[sel]
-    for c in range(K):                                     # every class seen by annotator 0
+    for c in range(K):                                     # every class seen by annotators 0 and 1
         i = np.flatnonzero(t == c)[0]
         yma[i, 0] = c
         yma[i, 1] = c
+    if kind == "c3cold":
+        yma[:] = -1
     free = np.flatnonzero(~mask)[:3]
     yma[free] = -1                                         # some samples without any label
     d.yma = yma
@@ -919,20 +934,10 @@ def _datasets(ctx, cfg, n_ds, salt):
     return out
 
 
-def paired_runs(ctx, only=None, n_ds=None, stop_at_first=False):
-    """Paired real runs of every configuration under the encodings; fills ctx."""
-    t0 = time.time()
-    summary = {}
-    if n_ds is None:
-        n_ds = 6 if ctx.thorough else 2
-    timing = {}
-    try:
-        from threadpoolctl import threadpool_limits
-    except ImportError:  # pragma: no cover
-        import contextlib
-
-        threadpool_limits = lambda limits: contextlib.nullcontext()  # noqa: E731
-    import sklearn.cluster  # noqa: F401  (load every native library before limiting its threads)
+def _single_thread():
+    """context manager: native libraries limited to one thread (tiny problems: thread start-up dominates otherwise,
+    x50 slower). Everything is imported first so that libraries loaded lazily are limited too."""
+    import sklearn.cluster  # noqa: F401
     import sklearn.ensemble  # noqa: F401
     import sklearn.gaussian_process  # noqa: F401
     import sklearn.metrics.pairwise  # noqa: F401
@@ -942,7 +947,63 @@ def paired_runs(ctx, only=None, n_ds=None, stop_at_first=False):
     import skactiveml.regressor  # noqa: F401
     import skactiveml.stream  # noqa: F401
 
-    with threadpool_limits(limits=1):    # tiny problems: thread start-up dominates otherwise (x50 slower)
+    try:
+        from threadpoolctl import threadpool_limits
+
+        return threadpool_limits(limits=1)
+    except ImportError:  # pragma: no cover
+        import contextlib
+
+        return contextlib.nullcontext()
+
+
+DECISIONS = [
+    "regression strategies (continuous targets): class relabeling does not apply; the sentinel varies over NaN / reserved number -1000.0 / "
+    "None (object y) -- all three are documented values of `missing_label` for these strategies and for the regressors, so differences are violations",
+    "SingleAnnotatorWrapper with its default aggregation is run under E0/E1 only (E2/E3 fail earlier, in the shared multi-annotator "
+    "validation, which the configurations with an explicit majority vote report once)",
+    "EpistemicUncertaintySampling is defined for two classes only: 2-class data sets only",
+    "CognitiveDualQueryStrategy* run with force_full_budget=True (the update IndexError of the filtered-chunk path is C10's finding, "
+    "it raises under every encoding)",
+    "stream strategies have no missing_label parameter; the encoding reaches them through `classes` and the classifier",
+    "raises under every encoding incl. E0 = not an encoding matter: skipped and counted (skipped_raises_under_all_encodings/*)",
+    "merely-close (rtol 1e-9) utilities / probabilities are counted (close_not_bit_identical/*), not alarmed",
+    "all-unlabeled (cold start) data sets are used by search() only: under E3 they make y an all-None object array, "
+    "which numpy converts where a string array is rejected -- same root causes under other precondition names",
+]
+
+
+def self_test(ctx):
+    """the oracle must see a real difference: swapping two labels changes predict_proba / utilities (guards against a comparator
+    or an encoder that makes everything look equal)"""
+    ds = make_ds(424242, "c3")
+    ds2 = make_ds(424242, "c3")
+    lab = np.flatnonzero(ds2.mask)
+    a = lab[0]
+    ds2.yi = ds2.yi.copy()
+    ds2.yi[a] = (ds2.yi[a] + 1) % ds2.K
+    for name in ["pwc", "UncertaintySampling/entropy"]:
+        cfg = CFG_BY_NAME[name]
+        r1, r2 = _run_one(cfg, "E0", ds), _run_one(cfg, "E2", ds2)
+        ok = r1[0] == "ok" and r2[0] == "ok" and bool(compare(r1[1], r2[1], ENC["E0"], ENC["E2"])[0])
+        if not ok:
+            ctx.broken.append(f"C09 oracle self-test: a changed label went unnoticed for configuration {name}")
+    for en, enc in ENC.items():
+        yi = np.array([-1, 0, 1, 2, -1, 2])
+        if not np.array_equal(enc.dec(enc.y(yi)), yi):
+            ctx.broken.append(f"C09 harness encoder round trip failed for {en}")
+    ctx.count("oracle_self_test_run")
+
+
+def paired_runs(ctx, only=None, n_ds=None, stop_at_first=False):
+    """Paired real runs of every configuration under the encodings; fills ctx."""
+    t0 = time.time()
+    summary = {}
+    if n_ds is None:
+        n_ds = 14 if ctx.thorough else 2
+    timing = {}
+    with _single_thread():
+        self_test(ctx)
         _loop(ctx, only, n_ds, stop_at_first, summary, timing)
     _finish(ctx, summary, timing, t0)
     return summary
@@ -988,47 +1049,186 @@ def _finish(ctx, summary, timing, t0):
     ctx.notes["paired_runs_seconds"] = round(time.time() - t0, 1)
     ctx.notes["paired_runs_slowest"] = sorted(timing.items(), key=lambda kv: -kv[1])[:8]
     ctx.notes["encodings"] = {k: dict(classes=v.base, missing_label=repr(v.ml), dtype=getattr(v.dtype, "__name__", str(v.dtype))) for k, v in ENC.items()}
+    ctx.notes["decisions"] = DECISIONS
+    ctx.notes["configurations"] = len(CONFIGS)
     ctx.exhaustive = False
 
 
+def encoding_algebra(ctx, only_case=None):
+    """Lean-driver part: the encoding algebra of `SkaModel/Core/Label.lean` against the real `ExtLabelEncoder`,
+    `is_unlabeled` and `SkactivemlClassifier._validate_data` (cost-matrix permutation) on random labelings presented under
+    the four encodings.  Checks (a) model = implementation under each encoding (correspondence), (b) on the real code:
+    encoded arrays, masks and permuted cost matrices identical across encodings, decoded predictions re-encoded."""
+    from skactiveml.classifier import ParzenWindowClassifier
+    from skactiveml.utils import ExtLabelEncoder, is_unlabeled
+
+    from .c16 import Coder, arr_like_tokens, err_enum, kind_of
+
+    rng = ctx.rng
+    n_cases = 150 if not ctx.thorough else 1500
+    lines, expect = [], []
+    todo = []
+    if only_case is not None:
+        todo.append((np.array(only_case["yi"]), list(only_case["perm"]), bool(only_case["classes_given"]), list(only_case["pred"]), int(only_case.get("ci", 0))))
+    else:
+        for ci in range(n_cases):
+            K = rng.choice([2, 3, 3])
+            n = rng.randint(1, 7)
+            m = rng.choice([None, None, 1, 2, 3])
+            shape = (n,) if m is None else (n, m)
+            p_missing = rng.choice([0.0, 0.3, 0.5, 1.0])
+            yi = np.array([-1 if rng.random() < p_missing else rng.randrange(K) for _ in range(int(np.prod(shape)))]).reshape(shape)
+            perm = list(range(K))
+            rng.shuffle(perm)
+            todo.append((yi, perm, rng.random() < 0.7, [rng.randrange(-1, K) for _ in range(rng.randint(0, 5))], ci))
+    for yi, perm, given, pred, ci in todo:
+        K = len(perm)
+        shape = yi.shape
+        n = shape[0]
+        m = None if yi.ndim == 1 else shape[1]
+        C = np.array([[0.0 if i == j else float(1 + ((3 * i + 5 * j + ci) % 7)) for j in range(K)] for i in range(K)])
+        X = np.array([[float(i), float((i * 7) % 5)] for i in range(n)])
+        per_enc = {}
+        for en in CLF_ENCS:
+            enc = ENC[en]
+            y = enc.y(yi)
+            classes = [enc.base[i] for i in perm] if given else None
+            coder = Coder(y.ravel().tolist(), enc.ml, classes, list(enc.base[:K]))
+            rec = dict(enc=en)
+            # --- real code
+            try:
+                le = ExtLabelEncoder(classes=classes, missing_label=enc.ml).fit(y)
+                codes = le.transform(y)
+                rec["classes_"] = list(le.classes_)
+                rec["codes"] = np.asarray(codes)
+                kk = len(le.classes_)
+                pr = [c for c in pred if c < kk]
+                rec["pred"] = pr
+                rec["decoded"] = le.inverse_transform(np.array(pr, dtype=int)) if pr else np.array([])
+                back = le.inverse_transform(codes)
+                impl = " ; ".join([
+                    ("ok " + kind_of(np.empty(0, dtype=le._dtype)) + " " + coder.toks(list(le.classes_))).strip(),
+                    ("ok " + " ".join(str(int(v)) for v in np.asarray(codes).ravel())).strip(),
+                    ("ok " + coder.toks(np.asarray(back).ravel().tolist())).strip(),
+                    ("ok " + coder.toks(np.asarray(rec["decoded"]).ravel().tolist())).strip(),
+                ])
+            except Exception as ex:  # noqa: BLE001
+                rec["error"] = err_enum(ex)
+                impl = rec["error"]
+                pr = []
+            try:
+                rec["mask"] = np.asarray(is_unlabeled(y, missing_label=enc.ml))
+            except Exception as ex:  # noqa: BLE001
+                rec["mask_error"] = err_enum(ex)
+            if given and m is None:
+                try:
+                    clf = ParzenWindowClassifier(classes=classes, missing_label=enc.ml, cost_matrix=C).fit(X, y)
+                    rec["cost_matrix_"] = np.asarray(clf.cost_matrix_)
+                except Exception as ex:  # noqa: BLE001
+                    rec["cost_error"] = err_enum(ex)
+            per_enc[en] = rec
+            # --- model lines
+            cls_tok = "0" if classes is None else f"1 {kind_of(np.array(classes))} {len(classes)} {coder.toks(list(classes))}"
+            ytok = arr_like_tokens(coder, None, y.ravel().tolist(), shape, y)
+            lines.append(" ".join(f"enc {coder.ml(enc.ml)} {cls_tok} {ytok} {ytok} {len(pr)} {' '.join(str(c) for c in pr)}".split()))
+            expect.append((" ".join(impl.split()), dict(part="encoder", enc=en, yi=yi.tolist(), perm=perm, classes_given=given, pred=pr)))
+            if "mask" in rec:
+                lines.append(" ".join(f"lbl 0 {coder.ml(enc.ml)} {ytok}".split()))
+                expect.append(("MASK " + " ".join("1" if b else "0" for b in rec["mask"].ravel()), dict(part="mask", enc=en, yi=yi.tolist())))
+            if classes is not None:
+                lines.append(f"argsortperm {len(classes)} {coder.toks(list(classes))}")
+                expect.append(("ARGSORT", dict(part="argsort", enc=en, perm=perm, rec=rec, C=C)))
+        # --- (b) across encodings on the real code
+        ref = per_enc["E0"]
+        case = dict(part="encoding-algebra", yi=yi.tolist(), perm=perm, classes_given=given, pred=pred, ci=ci)
+        ctx.case(("alg", yi.tolist(), tuple(perm), given, tuple(pred)), bool((yi < 0).any() and (yi >= 0).any() and len(set(yi[yi >= 0].tolist())) >= 2), sample=dict(case, codes_E0=ref.get("codes", ref.get("error"))))
+        ctx.count("algebra_cases")
+        for en in CLF_ENCS[1:]:
+            o = per_enc[en]
+            pre = ENC[en].sentinel
+            if ("error" in ref) != ("error" in o) or ("error" in ref and ref["error"] != o["error"]):
+                ctx.violate(f"C09/ExtLabelEncoder.fit_transform/raises-differently/{pre}", f"encoder outcome differs between E0 and {en}: {ref.get('error', 'ok')} vs {o.get('error', 'ok')}", dict(case, encodings=["E0", en]))
+                continue
+            if "error" in ref:
+                continue
+            if not np.array_equal(ref["codes"], o["codes"]):
+                ctx.violate(f"C09/ExtLabelEncoder.transform/encoded-array-differs/{pre}", f"the encoded label array differs between E0 and {en}", dict(case, encodings=["E0", en]))
+            if "mask" in ref and "mask" in o and not np.array_equal(ref["mask"], o["mask"]):
+                ctx.violate(f"C09/is_unlabeled/mask-differs/{pre}", f"is_unlabeled differs between E0 and {en}", dict(case, encodings=["E0", en]))
+            if not np.array_equal(ENC["E0"].dec(ref["decoded"]), ENC[en].dec(o["decoded"])):
+                ctx.violate(f"C09/ExtLabelEncoder.inverse_transform/not-reencoded/{pre}", f"decoded predictions under {en} are not the re-encoded ones of E0", dict(case, encodings=["E0", en]))
+            if "cost_matrix_" in ref and "cost_matrix_" in o and not np.array_equal(ref["cost_matrix_"], o["cost_matrix_"]):
+                ctx.violate(f"C09/SkactivemlClassifier._validate_data/cost-matrix-permutation-differs/{pre}", f"cost_matrix_ differs between E0 and {en}", dict(case, encodings=["E0", en]))
+    outs = vlib.run_driver(lines)
+    for line, out, (impl, case) in zip(lines, outs, expect):
+        if impl == "ARGSORT":
+            rec, C = case["rec"], case["C"]
+            if "cost_matrix_" in rec:
+                idx = [int(t) for t in out.split()]
+                want = C[idx][:, idx]
+                if not np.array_equal(want, rec["cost_matrix_"]):
+                    ctx.disagree("SkaModel.Core.Label.argsort/permuteMatrix vs SkactivemlClassifier._validate_data", dict(part="argsort", enc=case["enc"], perm=case["perm"], line=line), out, np.asarray(rec["cost_matrix_"]).tolist())
+                ctx.count("algebra_cost_matrix_checked")
+            continue
+        if impl.startswith("MASK "):
+            got = out.split("|")[0].split()
+            if got[:1] != ["ok"] or got[1:] != impl.split()[1:]:
+                ctx.disagree("SkaModel.Core.Label.isUnlabeledArr vs skactiveml.utils.is_unlabeled", dict(case, line=line), out, impl)
+            continue
+        if out.split() != impl.split():
+            ctx.disagree("SkaModel.Core.Label encoder vs skactiveml.utils.ExtLabelEncoder", dict(case, line=line), out, impl)
+
+
 def correspond(ctx):
-    # ---- LEAN-DRIVER PART GOES HERE (encoding algebra: model vs ExtLabelEncoder / is_unlabeled on generated cases) ----
-    # (added by the lead; keep `paired_runs` self-contained)
-    # -------------------------------------------------------------------------------------------------------------------
+    # ---- Lean-driver part (encoding algebra: model vs ExtLabelEncoder / is_unlabeled / cost-matrix permutation) ----
+    encoding_algebra(ctx)
+    # ---- paired real runs of every classifier / strategy under the four encodings ---------------------------------
     paired_runs(ctx)
 
 
 def search(ctx):
-    """More data sets / seeds through the same paired oracle, steered to the flagged call sites first; stops at the
-    first violation."""
+    """More data sets / seeds through the same paired oracle (incl. cold-start data sets with no label at all), steered to
+    the flagged call sites first; stops at the first violation."""
     flagged = ["ValueOfInformationEER", "MonteCarloEER", "GreedySamplingTarget", "GreedySamplingX", "FourDs", "ParzenWindowClassifier"]
     order = sorted(range(len(CONFIGS)), key=lambda i: (CONFIGS[i].cls not in flagged, i))
     summary = {}
-    for rnd in range(3):
-        for i in order:
-            cfg = CONFIGS[i]
-            if cfg.heavy and rnd:
-                continue
-            for ds in _datasets(ctx, cfg, 2, salt=50000 + 1000 * rnd + i):
-                evaluate(ctx, cfg, ds, summary)
-                if ctx.violations:
-                    return
+    with _single_thread():
+        for rnd in range(3):
+            for i in order:
+                cfg = CONFIGS[i]
+                if cfg.heavy and rnd:
+                    continue
+                dss = _datasets(ctx, cfg, 2, salt=50000 + 1000 * rnd + i)
+                if cfg.group != "reg":
+                    dss.append(make_ds(int(ctx.np_rng(70000 + 1000 * rnd + i).randint(0, 2**31 - 1)), "c3cold", cfg.nmax))
+                for ds in dss:
+                    evaluate(ctx, cfg, ds, summary)
+                    if ctx.violations:
+                        return
 
 
 def replay(payload):
-    """Re-run one recorded case (configuration name, data-set seed/kind, encoding pair) on the real code."""
+    """Re-run one recorded case (configuration name, data-set seed / kind / size bound) on the real code under all
+    encodings of that configuration; reports the recorded finding class if it shows again."""
     r = payload.get("replay", payload)
+    if r.get("part") == "encoding-algebra":
+        ctx = vlib.Ctx("C09", "quick", 0)
+        encoding_algebra(ctx, only_case=r)
+        for v in ctx.violations:
+            print("REPRODUCED:", v["key"], "|", v["what"])
+        return 1 if ctx.violations else 0
     cfg = CFG_BY_NAME.get(r.get("config"))
     if cfg is None:
         print("unknown configuration", r.get("config"))
         return 0
     ds = make_ds(int(r["ds_seed"]), r["ds_kind"], int(r.get("ds_nmax", 30)))
     ctx = vlib.Ctx("C09", "quick", 0)
-    encs = r.get("encodings") or list(cfg.encs)
-    sub = Cfg(cfg.name, cfg.cls, cfg.meth, cfg.run, group=cfg.group, kinds=cfg.kinds, tag=cfg.tag, encs=encs, nmax=cfg.nmax)
-    evaluate(ctx, sub, ds, {})
+    with _single_thread():
+        evaluate(ctx, cfg, ds, {})
     want = payload.get("key")
-    hits = [v for v in ctx.violations if want is None or v["key"] == want] or ctx.violations
+    hits = [v for v in ctx.violations if want is None or v["key"] == want]
     for v in hits:
         print("REPRODUCED:", v["key"], "|", v["what"])
+    if not hits and ctx.violations:
+        print("not reproduced under the recorded key; other findings on this input:", sorted({v["key"] for v in ctx.violations}))
     return 1 if hits else 0
